@@ -413,7 +413,11 @@ impl ToZinc for Column {
     fn to_zinc<W: std::io::Write>(&self, writer: &mut W) -> Result<()> {
         write_str(writer, &self.name)?;
         if let Some(meta) = &self.meta {
-            write_dict_tags(writer, meta, b" ")?;
+            if !meta.is_empty() {
+                // The meta tags are separated from the name by a space
+                writer.write_all(b" ")?;
+                write_dict_tags(writer, meta, b" ")?;
+            }
         }
         Ok(())
     }
